@@ -5,7 +5,8 @@ side file and SIGKILL itself.
 Run as   /venv/bin/python -m harness.props.c17_child <spec.json>      (cwd = the verif directory)
 
 spec = {"file": path, "mode": "w"|"a"|"r", "seed": int, "phases": [n_ops, ...], "end": END, "out": path,
-        "big": bool, "kill": true|false}
+        "big": bool, "kill": true|false, "compression": "No"|"DeflateNormal"|"Auto"|null (File-level argument;
+        null = argument omitted)}
 END  = "flush" | "close" | "exit" | "exit_exc" | "none" | "flush_flush"
 out  = {"flush_points": [flatten(walk) per flush point], "final_walk": full walk at the last flush point,
         "ops": [executed op log], "mode": ..., "end": ..., "pre_walk_equal_post": bool|None}
@@ -653,8 +654,15 @@ def run(spec):
 
     def open_file():
         # a failing open (a file damaged by an earlier generation): recorded, no history, no kill
+        comp = None
+        if spec.get("compression") is not None and spec["compression"] not in ("No", "DeflateNormal", "Auto"):
+            raise SystemExit("bad compression %r" % spec["compression"])
         try:
-            return nix.File.open(path, spec["mode"])
+            if spec.get("compression") is None:
+                return nix.File.open(path, spec["mode"])          # the default argument itself
+            comp = {"No": nix.Compression.No, "DeflateNormal": nix.Compression.DeflateNormal,
+                    "Auto": nix.Compression.Auto}[spec["compression"]]
+            return nix.File.open(path, spec["mode"], compression=comp)
         except Exception as e:
             out["open_error"] = type(e).__name__
             finish()
